@@ -2,7 +2,7 @@
    Model: Pulse/PulseModel.v (util/PulseNode.{h,cpp}); oracles gt/pl = the virtual GetPulseTime()/Pulse(). *)
 From Coq Require Import List Arith NArith Lia.
 From Muscle Require Import Pulse.PulseModel Pulse.PulseInv Pulse.PulseOps Pulse.PulseSweep Pulse.PulseReach Pulse.PulseMin
-     Pulse.PulseExact Pulse.PulseAsk Pulse.PulseRefuted Pulse.PulseForest Pulse.PulseFuel Pulse.PulseDepth Pulse.PulseFuelAny.
+     Pulse.PulseExact Pulse.PulseAsk Pulse.PulseRefuted Pulse.PulseForest Pulse.PulseFuel Pulse.PulseDepth Pulse.PulseFuelAny Pulse.PulseSafe.
 Import ListNotations.
 
 (* the translated constant the model's clamp rests on *)
@@ -152,6 +152,64 @@ Theorem C20_pulse_never_early_once :
     Good nobody (nd s') /\ ev_rel now s s'.
 Proof. exact pulse_never_early_once. Qed.
 Print Assumptions C20_pulse_never_early_once.
+
+(* GetPulseTime() callbacks that DO perform operations.  [run_s] / [top_get_s] are the model with one extra check: a
+   GetPulseTime() callback's operation is refused (result None) when it would invalidate, detach, re-attach or destroy a
+   node whose own GetPulseTimeAux is running (the node itself or an ancestor up to the swept root).  Whenever they return
+   a state, the plain model returns the same state, and:
+   reach_inv_safe -- the state is Good (Pulse() callbacks arbitrary);
+   recalc_min_safe -- after the sweep every attached node is valid, the root's aggregate is the minimum of the requested
+   times, and the reported time is not later than it (it can be earlier: a harmless early wake-up).
+   With C20_reentrant_recalc_refuted / C20_f16_history_refused the excluded callbacks are exactly those of finding F16. *)
+Theorem C20_reach_inv_safe :
+  forall (gt : nat -> nat -> N -> N -> N * list cop) (pl : nat -> nat -> N -> N -> list cop) f os s,
+    run_s gt pl f init_state os = Some s -> run gt pl f init_state os = Some s /\ Good nobody (nd s).
+Proof. exact reach_inv_safe. Qed.
+Print Assumptions C20_reach_inv_safe.
+
+Theorem C20_recalc_min_safe :
+  forall (gt : nat -> nat -> N -> N -> N * list cop) f s r now s',
+    Good nobody (nd s) -> is_root (nd s) r = true -> top_get_s gt f s r now = Some s' ->
+    top_get gt f s r now = Some s' /\
+    exists mn, hd_error (evs s') = Some (EMin r mn) /\ (mn <= agg (nd s' r))%N /\
+      Good nobody (nd s') /\
+      (forall y, desc (nd s') r y -> settled (nd s') y /\ (agg (nd s' r) <= sched (nd s' y))%N) /\
+      (exists y, desc (nd s') r y /\ sched (nd s' y) = agg (nd s' r)) /\
+      agg (nd s' r) = N.min (sched (nd s' r)) (first_sched_agg (nd s') r) /\ is_root (nd s') r = true.
+Proof. exact recalc_min_safe. Qed.
+Print Assumptions C20_recalc_min_safe.
+
+(* cycle_exact_safe: one manager cycle with such GetPulseTime() callbacks (and Pulse() callbacks that perform no
+   operations): after the recalculation every attached node is valid and Pulse() runs on exactly the then-attached nodes
+   whose requested time is <= now *)
+Theorem C20_cycle_exact_safe :
+  forall (gt : nat -> nat -> N -> N -> N * list cop) (pl : nat -> nat -> N -> N -> list cop),
+    (forall x k now st, pl x k now st = []) ->
+    forall f s r now s',
+      (now < NEVER)%N -> Good nobody (nd s) -> is_root (nd s) r = true ->
+      step_s gt pl f s (TCycle r now) = Some s' ->
+      step gt pl f s (TCycle r now) = Some s' /\
+      exists s1,
+        top_get gt f s r now = Some s1 /\ top_pulse pl f s1 r now = Some s' /\
+        (forall y, desc (nd s1) r y -> valid (nd s1 y) = true) /\
+        Good nobody (nd s') /\
+        exists d, evs s' = d ++ evs s1 /\ NoDup (map ev_node d) /\
+          (forall e, In e d -> exists y k, e = EPulse y k now (sched (nd s1 y)) /\ desc (nd s1) r y /\ (sched (nd s1 y) <= now)%N) /\
+          (forall y, desc (nd s1) r y -> (sched (nd s1 y) <= now)%N -> exists k, In (EPulse y k now (sched (nd s1 y))) d) /\
+          (forall y, desc (nd s1) r y -> (sched (nd s1 y) <= now)%N ->
+                     valid (nd s' y) = false /\ (parent (nd s' y) <> None -> cur (nd s' y) = LRecalc)).
+Proof. exact cycle_exact_safe. Qed.
+Print Assumptions C20_cycle_exact_safe.
+
+Theorem C20_f16_history_refused : run_s rr_gt rr_pl 50 init_state rr_ops = None.
+Proof. exact f16_history_refused. Qed.
+Print Assumptions C20_f16_history_refused.
+
+Example C20_safe_history_accepted :
+  exists s, run_s sf_gt sf_pl 60 init_state sf_ops = Some s /\
+            parent (nd s 3) = None /\ alive (nd s 4) = false /\ parent (nd s 1) = Some 0 /\
+            length (filter (is_pulse_of 2) (evs s)) = 1.
+Proof. exact safe_history_accepted. Qed.
 
 (* the statement is REFUTED for GetPulseTime() callbacks that themselves invalidate (or re-attach) the node being
    recalculated: known finding F16, same witness as corpus/C20.txt line 1 *)
